@@ -1,6 +1,6 @@
 (* Property C06 — a partitioned (parallel) data set reads as the whole data set. *)
 From Coq Require Import ZArith Bool Arith List Permutation.
-From FC Require Import Model.Merge Model.Structured Proofs.MergeP Proofs.StructuredP.
+From FC Require Import Model.Merge Model.Structured Proofs.MergeP Proofs.StructuredP Proofs.PMergeP.
 Import ListNotations.
 Local Open Scope nat_scope.
 
@@ -120,6 +120,41 @@ Theorem C06_axis_decomposition_from_extents : forall (b : Z) (sizes : list Z) (p
 Proof. exact axis_decomposition_from_extents. Qed.
 Print Assumptions C06_axis_decomposition_from_extents.
 
+(* all three directions at once, every listing order of the pieces, every mix of meshed directions (all piece sizes positive)
+   and flat directions (size 0): the piece sizes per direction, the decomposition handed to the merger and the position of a
+   piece in the piece lattice are recovered from the piece extents *)
+Theorem C06_decomposition_from_extents : forall (b0 b1 b2 : Z) (s0 s1 s2 : list Z) (listing : list (list nat)),
+  axis_ok s0 -> axis_ok s1 -> axis_ok s2 ->
+  (forall l, In l listing <-> In l (locations_in (shape3 s0 s1 s2))) ->
+  sizes_along_axis (exts b0 b1 b2 s0 s1 s2 listing) = [s0; s1; s2]
+  /\ merger_decomposition (exts b0 b1 b2 s0 s1 s2 listing) = dec s0 s1 s2
+  /\ (forall i j k, i < length s0 -> j < length s1 -> k < length s2 ->
+        piece_location (exts b0 b1 b2 s0 s1 s2 listing) (ext_of b0 b1 b2 s0 s1 s2 [i; j; k]) = restrict (ms s0 s1 s2) [i; j; k]).
+Proof.
+  intros b0 b1 b2 s0 s1 s2 listing A0 A1 A2 H. split; [|split].
+  - apply sizes_from_extents; assumption.
+  - apply decomposition_from_extents; assumption.
+  - intros i j k. apply location_from_extent; assumption.
+Qed.
+Print Assumptions C06_decomposition_from_extents.
+
+(* ... and the field read from the parallel file is the global field: the merger's callback finds, for every position of the
+   piece lattice, the piece listed for it (domain_id), so merging the restrictions of a global x-fastest field gives it back *)
+Theorem C06_pmerge_is_global : forall (b0 b1 b2 : Z) (s0 s1 s2 : list Z) (listing : list (list nat)),
+  axis_ok s0 -> axis_ok s1 -> axis_ok s2 ->
+  (forall l, In l listing <-> In l (locations_in (shape3 s0 s1 s2))) -> NoDup listing ->
+  forall (V : Type) (zero : V) (is_point : bool) (g : list V) (piece_fields : list (list V)),
+  length g = nprod (entity_shape is_point (merged_cell_shape (dec s0 s1 s2))) ->
+  (forall n, n < length listing ->
+     nth n piece_fields [] =
+     map (fun k => nth k g zero)
+         (piece_entity_indices (dec s0 s1 s2) (restrict (ms s0 s1 s2) (nth n listing []))
+            (entity_shape is_point (piece_shape (dec s0 s1 s2) (restrict (ms s0 s1 s2) (nth n listing []))))
+            (entity_shape is_point (merged_cell_shape (dec s0 s1 s2))))) ->
+  pmerge zero (exts b0 b1 b2 s0 s1 s2 listing) is_point piece_fields = g.
+Proof. intros b0 b1 b2 s0 s1 s2 listing A0 A1 A2 H ND. apply pmerge_is_global; assumption. Qed.
+Print Assumptions C06_pmerge_is_global.
+
 (* finding F-C06b: the numeric type of the merged array — pinned: always float64; repaired: that of the pieces *)
 Theorem C06_smerge_dtype : (forall d, smerge_dtype_fixed d = d) /\ smerge_dtype_pinned I32 <> I32.
 Proof. split; [reflexivity|discriminate]. Qed.
@@ -138,5 +173,16 @@ Example C06_nonvacuous :
   piece_entity_indices [[1; 2]; [2]] [1; 0] [2; 2] [3; 2] = [1; 2; 4; 5] /\
   piece_entity_indices [[1; 2]; [2]] [0; 0] [2; 3] [4; 3] = [0; 1; 4; 5; 8; 9] /\
   smerge 0 [[1; 2]; [2]] false (fun loc => match loc with [0; 0] => [10; 13] | _ => [11; 12; 14; 15] end)
-    = [10; 11; 12; 13; 14; 15].
-Proof. split; [exact wit_quad_wf|]. split; [exact wit_tri_wf|]. vm_compute. repeat split; reflexivity. Qed.
+    = [10; 11; 12; 13; 14; 15] /\
+  (* a lattice flat in y, two pieces along x and two along z, listed in a shuffled order: the cell field comes back *)
+  (let listing := [[1; 0; 1]; [0; 0; 0]; [1; 0; 0]; [0; 0; 1]] in
+   axis_ok [1; 2]%Z /\ axis_ok [0]%Z /\ axis_ok [2; 1]%Z /\
+   merger_decomposition (exts 0 0 5 [1; 2]%Z [0]%Z [2; 1]%Z listing) = [[1; 2]; [2; 1]] /\
+   pmerge 0 (exts 0 0 5 [1; 2]%Z [0]%Z [2; 1]%Z listing) false [[7; 8]; [0; 3]; [1; 2; 4; 5]; [6]] = [0; 1; 2; 3; 4; 5; 6; 7; 8]).
+Proof.
+  split; [exact wit_quad_wf|]. split; [exact wit_tri_wf|]. cbv zeta.
+  repeat match goal with |- _ /\ _ => split end; try (vm_compute; reflexivity).
+  - left. split; [discriminate|repeat constructor].
+  - right. reflexivity.
+  - left. split; [discriminate|repeat constructor].
+Qed.
